@@ -74,16 +74,25 @@ func b2i(b bool) int {
 	return 0
 }
 
-// sepAllowed: the separators for which the statement promises a round trip (DESIGN §7a).
+// sepAllowed: the separators for which the round trip is demanded: no separator option, the
+// empty one (= ":"), and every separator string without '-' that contains at least one
+// character other than the sixteen characters the formatter prints for digits (theorem
+// parse_format_formatted_ia_anysep; contains DESIGN §7a's single characters outside
+// [0-9a-fA-F-]).
 func sepAllowed(s sepOpt) bool {
 	if !s.given || s.sep == "" {
 		return true
 	}
-	if len(s.sep) != 1 {
+	if strings.Contains(s.sep, "-") {
 		return false
 	}
-	c := s.sep[0]
-	return !(c >= '0' && c <= '9' || c >= 'a' && c <= 'f' || c >= 'A' && c <= 'F' || c == '-')
+	for i := 0; i < len(s.sep); i++ {
+		c := s.sep[i]
+		if !(c >= '0' && c <= '9' || c >= 'a' && c <= 'f') {
+			return true
+		}
+	}
+	return false
 }
 
 var (
@@ -303,9 +312,9 @@ func (g *eng) formatted(isd, as uint64, pfx bool, s sepOpt) {
 		cls = "sep-default"
 	case s.sep == "":
 		cls = "sep-empty"
-	case allowed:
+	case allowed && len(s.sep) == 1:
 		cls = "sep-single"
-	case len(s.sep) > 1:
+	case allowed:
 		cls = "sep-multi"
 	}
 	rep := map[string]any{"isd": isd, "as": as, "prefix": pfx, "separator_given": s.given, "separator": s.sep}
@@ -378,10 +387,15 @@ func (g *eng) formattedParse(t string, pfx bool, s sepOpt) {
 			}
 		}
 		if good {
-			if sep != ":" && strings.Contains(parts[1], ":") {
-				good = false
+			// the AS part: one piece (decimal) or three pieces (hex groups) around the separator
+			pieces := strings.Split(parts[1], sep)
+			for _, pc := range pieces {
+				if strings.Contains(pc, ":") {
+					good = false
+				}
 			}
-			d, dok := denoteIA(parts[0] + "-" + strings.ReplaceAll(parts[1], sep, ":"))
+			good = good && (len(pieces) == 1 || len(pieces) == 3)
+			d, dok := denoteIA(parts[0] + "-" + strings.Join(pieces, ":"))
 			good = good && dok && d == uint64(via)
 		}
 		if !good {
@@ -460,14 +474,18 @@ var svcNames = []string{"DS", "CS", "Wildcard", "DS_A", "CS_A", "Wildcard_A", "D
 func (g *eng) svcValue(v uint16) {
 	s := addr.SVC(v)
 	t := s.String()
-	tag := "svc.f/unnamed"
+	tag := "~svc.f/unnamed"
 	named := s.Base() == addr.SvcDS || s.Base() == addr.SvcCS || s.Base() == addr.SvcWildcard
 	if named {
 		tag = "svc.f/named"
 	}
 	g.e.Op(fmt.Sprintf("svc.f %d", v), hx(t), tag)
 	p, err := addr.ParseSVC(t)
-	g.e.Op("svc.p "+hx(t), okOrErr(err, uint64(p)), tagOf("svc.p", err))
+	ptag := tagOf("svc.p", err)
+	if !named {
+		ptag = "~svc.p/unnamed"
+	}
+	g.e.Op("svc.p "+hx(t), okOrErr(err, uint64(p)), ptag)
 	if named {
 		if err != nil || p != s {
 			g.bad("svc-roundtrip", "ParseSVC(SVC.String()) differs for a named service",
@@ -685,10 +703,10 @@ func main() {
 	r := g.r
 	e.Rule = "values: ISD/AS boundaries (0,1,2^16-1,2^16,2^32-1,2^32,2^48-1,...) x all option combinations + random " +
 		"ISD/AS/IA (hex groups of every digit count); every value is formatted, the text parsed back (plain and with " +
-		"prefix/separator options incl. empty, single, multi-character and out-of-statement separators); all 65536 SVC " +
+		"prefix/separator options incl. empty, single, multi-character and inadmissible (hex digit, '-') separators); all 65536 SVC " +
 		"values; hosts = named SVCs and random IPv4/IPv6(/zone) addresses, full addresses with port; malformed stream = " +
 		"fixed table + 1-2 random edits of valid texts (insert/delete/replace/leading zero/upper-case/non-ASCII byte); " +
-		"non-trivial = everything except parse errors on mutated texts; predicate: round trips, empty separator = ':', " +
+		"non-trivial = everything except the 65530 unnamed SVC values; predicate: round trips, empty separator = ':', " +
 		"accepted text denotes the returned value (independent big.Int denotation)"
 
 	// 1. boundaries x options
